@@ -938,3 +938,13 @@ func (x *Extractor) EquivByCases(a, b *RF, depth int) bool {
 	}
 	return true
 }
+
+// EqUnder: like Eq, with the stated formula also simplified under the context's assumptions.
+func (b *B) EqUnder(rule, construct, where string, fc *FC, got *RF, env *SpecEnv, spec string) bool {
+	ok := false
+	b.guard(rule, construct, func() {
+		want := fc.Sub(env.MustParse(spec))
+		ok = b.EqRF(rule, construct, where, fc.Sub(got), want, "≡ "+spec)
+	})
+	return ok
+}
